@@ -258,3 +258,255 @@ Proof.
       change (flat_map (fun w => map iid (wf_q w)) (w0 :: fl0)) with (wids (w0 :: fl0)); lia.
   - destruct (pol_pop now i) as [[i' r] e] eqn:E. inversion H; subst. cbn [pol_ids]. eauto.
 Qed.
+
+(* ------------------------------------------------------------------ *)
+(** * Lengths *)
+
+Lemma fids_cons g l fl : fids ((g, l) :: fl) = map iid l ++ fids fl.
+Proof. reflexivity. Qed.
+
+Lemma fl_append_len f it fl l :
+  fl_find f fl = Some l -> zlen (fids (fl_append f it fl)) = 1 + zlen (fids fl).
+Proof.
+  induction fl as [|[g l'] fl IH]; cbn [fl_find fl_append]; [discriminate|].
+  destruct (f =? g); intros H; rewrite !fids_cons, !zlen_app.
+  - rewrite map_app, zlen_app. cbn [map]. rewrite zlen_cons. change (zlen (@nil Z)) with 0. lia.
+  - rewrite (IH H). lia.
+Qed.
+
+Lemma fair_pop_len fl : forall rm fl' res rm',
+  fair_pop fl rm = (fl', res, rm') ->
+  zlen (fids fl) = zlen (fids fl') + match res with Some _ => 1 | None => 0 end.
+Proof.
+  induction fl as [|[g l] fl IH]; cbn [fair_pop]; intros rm fl' res rm' H.
+  - inversion H; subst. reflexivity.
+  - destruct l as [|it l].
+    + apply IH in H. rewrite fids_cons. exact H.
+    + destruct l as [|it2 l]; inversion H; subst; rewrite fids_cons.
+      * cbn [map app]. rewrite zlen_cons. lia.
+      * rewrite fids_app, fids_cons, !zlen_app. cbn [map fids flat_map]. rewrite !zlen_cons.
+        change (zlen (@nil Z)) with 0. lia.
+Qed.
+
+Lemma fair_pop_none fl : forall rm fl' rm', fair_pop fl rm = (fl', None, rm') -> fids fl = [] /\ fl' = [].
+Proof.
+  induction fl as [|[g l] fl IH]; cbn [fair_pop]; intros rm fl' rm' H.
+  - inversion H; subst. split; reflexivity.
+  - destruct l as [|it l].
+    + apply IH in H. rewrite fids_cons. exact H.
+    + destruct l; discriminate.
+Qed.
+
+Lemma wf_append_len f it fl :
+  wf_find f fl = true -> zlen (wids (wf_append f it fl)) = 1 + zlen (wids fl).
+Proof.
+  induction fl as [|w fl IH]; cbn [wf_find wf_append]; [discriminate|].
+  destruct (f =? wf_id w); cbn [orb]; intros H; rewrite !wids_cons, !zlen_app.
+  - cbn [wf_q]. rewrite map_app, zlen_app. cbn [map]. rewrite zlen_cons. change (zlen (@nil Z)) with 0. lia.
+  - rewrite (IH H). lia.
+Qed.
+
+Definition wf_ok (w : wflow) : Prop := 1 <= wf_cr w /\ 1 <= wf_w w.
+
+Lemma wf_append_ok f it fl : Forall wf_ok fl -> Forall wf_ok (wf_append f it fl).
+Proof.
+  induction 1 as [|w fl Hw Hf IH]; cbn [wf_append]; [constructor|].
+  destruct (f =? wf_id w); constructor; auto.
+Qed.
+
+Lemma wfq_pop_len fuel : forall fl rm fl' res rm',
+  wfq_pop fuel fl rm = (fl', res, rm') ->
+  zlen (wids fl) = zlen (wids fl') + match res with Some _ => 1 | None => 0 end.
+Proof.
+  induction fuel as [|fuel IH]; cbn [wfq_pop]; intros fl rm fl' res rm' H.
+  - inversion H; subst. lia.
+  - destruct fl as [|w r]; [inversion H; subst; reflexivity|].
+    destruct (wf_q w) as [|it l] eqn:Eq.
+    + destruct r as [|w2 r2].
+      * inversion H; subst. rewrite wids_cons, Eq. reflexivity.
+      * apply IH in H. rewrite wids_cons, Eq. exact H.
+    + destruct (0 <? wf_cr w).
+      * destruct l as [|it2 l].
+        -- inversion H; subst. rewrite wids_cons, Eq. cbn [map app]. rewrite zlen_cons. lia.
+        -- destruct (wf_cr w - 1 <=? 0); inversion H; subst; rewrite wids_cons, Eq.
+           ++ rewrite wids_app, wids_cons. cbn [wf_q]. rewrite !zlen_app. cbn [map wids flat_map]. rewrite !zlen_cons.
+              change (zlen (@nil Z)) with 0. lia.
+           ++ rewrite wids_cons. cbn [wf_q]. rewrite !zlen_app. cbn [map]. rewrite !zlen_cons. lia.
+      * apply IH in H. rewrite <- H. rewrite wids_app, !wids_cons, Eq. cbn [wf_q]. rewrite !zlen_app.
+        cbn [wids flat_map]. change (zlen (@nil Z)) with 0. lia.
+Qed.
+
+Lemma wfq_pop_ok fuel : forall fl rm fl' res rm',
+  wfq_pop fuel fl rm = (fl', res, rm') -> Forall wf_ok fl -> Forall wf_ok fl'.
+Proof.
+  induction fuel as [|fuel IH]; cbn [wfq_pop]; intros fl rm fl' res rm' H Hok.
+  - inversion H; subst. exact Hok.
+  - destruct fl as [|w r]; [inversion H; subst; constructor|].
+    inversion Hok as [|? ? Hw Hr]; subst.
+    destruct (wf_q w) as [|it l] eqn:Eq.
+    + destruct r as [|w2 r2]; [inversion H; subst; constructor|]. eapply IH; eauto.
+    + destruct (0 <? wf_cr w) eqn:Ec.
+      * destruct l as [|it2 l]; [inversion H; subst; exact Hr|].
+        destruct Hw as [Hc Hwt].
+        destruct (wf_cr w - 1 <=? 0) eqn:Em; inversion H; subst.
+        -- apply Forall_app. split; [exact Hr|]. constructor; [|constructor]. unfold wf_ok. cbn. lia.
+        -- constructor; [|exact Hr]. unfold wf_ok. cbn. lia.
+      * eapply IH; eauto. apply Forall_app. split; [exact Hr|]. constructor; [|constructor].
+        destruct Hw. unfold wf_ok. cbn. lia.
+Qed.
+
+Lemma wfq_pop_none fuel : forall fl rm fl' rm',
+  wfq_pop fuel fl rm = (fl', None, rm') -> Forall wf_ok fl -> (length fl <= fuel)%nat ->
+  wids fl = [].
+Proof.
+  induction fuel as [|fuel IH]; cbn [wfq_pop]; intros fl rm fl' rm' H Hok Hlen.
+  - destruct fl; [reflexivity|cbn in Hlen; lia].
+  - destruct fl as [|w r]; [reflexivity|].
+    inversion Hok as [|? ? Hw Hr]; subst.
+    destruct (wf_q w) as [|it l] eqn:Eq.
+    + rewrite wids_cons, Eq. cbn [map app].
+      destruct r as [|w2 r2]; [reflexivity|]. eapply IH; eauto. cbn in *. lia.
+    + destruct Hw as [Hc _]. assert (E : 0 <? wf_cr w = true) by (apply Z.ltb_lt; lia).
+      rewrite E in H. destruct l; [discriminate|]. destruct (wf_cr w - 1 <=? 0); discriminate.
+Qed.
+
+(* ------------------------------------------------------------------ *)
+(** * Well-formed policy states *)
+
+Fixpoint pol_wf (s : pol) : Prop :=
+  match s with
+  | PFair _ _ fl total _ => total = zlen (fids fl)
+  | PWfq _ _ fl total _ => total = zlen (wids fl) /\ Forall wf_ok fl
+  | PBalk _ _ i => pol_wf i
+  | _ => True
+  end.
+
+Lemma push_wf balk it : forall s s' ok, pol_wf s -> pol_push balk it s = (s', ok) -> pol_wf s'.
+Proof.
+  induction s as [cap l|cap l|cap ctr h|cap ctr h st|maxf pfc fl total st|cap pfc fl total st|thr b i IH];
+    cbn [pol_push pol_wf]; intros s' ok Hw H.
+  - destruct (cap_full cap (zlen l)); inversion H; subst; exact I.
+  - destruct (cap_full cap (zlen l)); inversion H; subst; exact I.
+  - destruct (cap_full cap (zlen h)); inversion H; subst; exact I.
+  - destruct (cap_full cap (zlen h)); inversion H; subst; exact I.
+  - destruct (fl_find (iflow it) fl) as [l|] eqn:Ef.
+    + destruct (cap_full pfc (zlen l)); inversion H; subst; cbn [pol_wf]; [reflexivity|].
+      erewrite fl_append_len; eauto. lia.
+    + destruct (cap_full maxf (zlen fl)); [inversion H; subst; cbn [pol_wf]; reflexivity|].
+      destruct (cap_full pfc 0); inversion H; subst; cbn [pol_wf]; rewrite fids_app, zlen_app, fids_cons;
+        cbn [map app fids flat_map]; rewrite ?zlen_cons; change (zlen (@nil Z)) with 0; lia.
+  - destruct Hw as [Ht Hok].
+    destruct (cap_full cap total); [inversion H; subst; cbn [pol_wf]; auto|].
+    set (fl1 := if negb (wf_find (iflow it) fl) then _ else fl) in *.
+    assert (Hf : wf_find (iflow it) fl1 = true).
+    { subst fl1. destruct (wf_find (iflow it) fl) eqn:E; cbn; [exact E|].
+      rewrite wf_find_app, E. cbn. now rewrite Z.eqb_refl. }
+    assert (Hl : zlen (wids fl1) = zlen (wids fl)).
+    { subst fl1. destruct (negb (wf_find (iflow it) fl)); [|reflexivity].
+      rewrite wids_app, zlen_app. cbn. lia. }
+    assert (Hok1 : Forall wf_ok fl1).
+    { subst fl1. destruct (negb (wf_find (iflow it) fl)); [|exact Hok].
+      apply Forall_app. split; [exact Hok|]. constructor; [|constructor].
+      unfold wf_ok. cbn. destruct (iw it <? 1) eqn:E; lia. }
+    destruct (cap_full pfc (wf_qlen (iflow it) fl1)); inversion H; subst; cbn [pol_wf].
+    + split; [lia|exact Hok1].
+    + split; [rewrite wf_append_len by exact Hf; lia|apply wf_append_ok; exact Hok1].
+  - destruct ((thr <=? pol_len i) && balk); [inversion H; subst; exact Hw|].
+    destruct (pol_push balk it i) as [i' ok'] eqn:E. inversion H; subst. cbn [pol_wf]. eauto.
+Qed.
+
+Lemma pop_wf now : forall s s' r ex, pol_wf s -> pol_pop now s = (s', r, ex) -> pol_wf s'.
+Proof.
+  induction s as [cap l|cap l|cap ctr h|cap ctr h st|maxf pfc fl total st|cap pfc fl total st|thr b i IH];
+    cbn [pol_pop pol_wf]; intros s' r ex Hw H.
+  - destruct l; inversion H; subst; exact I.
+  - destruct l; inversion H; subst; exact I.
+  - destruct h as [|[[k o] it] h]; inversion H; subst; exact I.
+  - destruct (dl_pop now h) as [[h' r'] e']. inversion H; subst; exact I.
+  - destruct (fair_pop fl 0) as [[fl' r'] rm] eqn:E. pose proof (fair_pop_len _ _ _ _ _ E) as Hl.
+    destruct r'; inversion H; subst; cbn [pol_wf]; lia.
+  - destruct Hw as [Ht Hok].
+    destruct fl as [|w0 fl0]; [inversion H; subst; cbn [pol_wf]; auto|].
+    destruct (wfq_pop (2 * length (w0 :: fl0)) (w0 :: fl0) 0) as [[fl' r'] rm] eqn:E.
+    pose proof (wfq_pop_len _ _ _ _ _ _ E) as Hl. pose proof (wfq_pop_ok _ _ _ _ _ _ E Hok) as Hok'.
+    destruct r'; inversion H; subst; cbn [pol_wf]; split; auto; lia.
+  - destruct (pol_pop now i) as [[i' r'] e'] eqn:E. inversion H; subst. cbn [pol_wf]. eauto.
+Qed.
+
+Lemma pop_none_len now : forall s s' ex, pol_wf s -> pol_pop now s = (s', None, ex) -> pol_len s' = 0.
+Proof.
+  induction s as [cap l|cap l|cap ctr h|cap ctr h st|maxf pfc fl total st|cap pfc fl total st|thr b i IH];
+    cbn [pol_pop pol_wf]; intros s' ex Hw H.
+  - destruct l; inversion H; subst; reflexivity.
+  - destruct l; inversion H; subst; reflexivity.
+  - destruct h as [|[[k o] it] h]; inversion H; subst; reflexivity.
+  - destruct (dl_pop now h) as [[h' r'] e'] eqn:E. inversion H; subst. apply dl_pop_none in E. subst. reflexivity.
+  - destruct (fair_pop fl 0) as [[fl' r'] rm] eqn:E.
+    destruct r'; inversion H; subst. apply fair_pop_none in E. destruct E as [E _]. cbn [pol_len]. rewrite E. reflexivity.
+  - destruct Hw as [Ht Hok].
+    destruct fl as [|w0 fl0]; [inversion H; subst; cbn [pol_len]; try rewrite Ht; reflexivity|].
+    destruct (wfq_pop (2 * length (w0 :: fl0)) (w0 :: fl0) 0) as [[fl' r'] rm] eqn:E.
+    destruct r'; inversion H; subst. apply wfq_pop_none in E; [|exact Hok|lia].
+    cbn [pol_len]. rewrite E. reflexivity.
+  - destruct (pol_pop now i) as [[i' r'] e'] eqn:E. inversion H; subst. cbn [pol_len]. eauto.
+Qed.
+
+Lemma push_accept_len balk it : forall s s', pol_push balk it s = (s', true) -> pol_len s' = pol_len s + 1.
+Proof.
+  induction s as [cap l|cap l|cap ctr h|cap ctr h st|maxf pfc fl total st|cap pfc fl total st|thr b i IH];
+    cbn [pol_push]; intros s' H.
+  - destruct (cap_full cap (zlen l)); inversion H; subst. cbn [pol_len]. rewrite zlen_app, zlen_cons. change (zlen (@nil item)) with 0. lia.
+  - destruct (cap_full cap (zlen l)); inversion H; subst. cbn [pol_len]. rewrite zlen_cons. lia.
+  - destruct (cap_full cap (zlen h)); inversion H; subst. cbn [pol_len]. rewrite zlen_ins. lia.
+  - destruct (cap_full cap (zlen h)); inversion H; subst. cbn [pol_len]. rewrite zlen_ins. lia.
+  - destruct (fl_find (iflow it) fl) as [l|] eqn:Ef.
+    + destruct (cap_full pfc (zlen l)); inversion H; subst. reflexivity.
+    + destruct (cap_full maxf (zlen fl)); [inversion H|].
+      destruct (cap_full pfc 0); inversion H; subst. reflexivity.
+  - destruct (cap_full cap total); [inversion H|].
+    match type of H with (if ?c then _ else _) = _ => destruct c end; inversion H; subst. reflexivity.
+  - destruct ((thr <=? pol_len i) && balk); [inversion H|].
+    destruct (pol_push balk it i) as [i' ok] eqn:E. inversion H; subst. cbn [pol_len]. eauto.
+Qed.
+
+Lemma push_reject_len balk it : forall s s', pol_push balk it s = (s', false) -> pol_len s' = pol_len s.
+Proof.
+  induction s as [cap l|cap l|cap ctr h|cap ctr h st|maxf pfc fl total st|cap pfc fl total st|thr b i IH];
+    cbn [pol_push]; intros s' H.
+  - destruct (cap_full cap (zlen l)); inversion H; subst. reflexivity.
+  - destruct (cap_full cap (zlen l)); inversion H; subst. reflexivity.
+  - destruct (cap_full cap (zlen h)); inversion H; subst. reflexivity.
+  - destruct (cap_full cap (zlen h)); inversion H; subst. reflexivity.
+  - destruct (fl_find (iflow it) fl) as [l|] eqn:Ef.
+    + destruct (cap_full pfc (zlen l)); inversion H; subst. reflexivity.
+    + destruct (cap_full maxf (zlen fl)); [inversion H; subst; reflexivity|].
+      destruct (cap_full pfc 0); inversion H; subst. reflexivity.
+  - destruct (cap_full cap total); [inversion H; subst; reflexivity|].
+    match type of H with (if ?c then _ else _) = _ => destruct c end; inversion H; subst. reflexivity.
+  - destruct ((thr <=? pol_len i) && balk); [inversion H; subst; reflexivity|].
+    destruct (pol_push balk it i) as [i' ok] eqn:E. inversion H; subst. cbn [pol_len]. eauto.
+Qed.
+
+Lemma pop_len now : forall s s' r ex, pol_pop now s = (s', r, ex) ->
+  pol_len s = pol_len s' + zlen ex + match r with Some _ => 1 | None => 0 end.
+Proof.
+  induction s as [cap l|cap l|cap ctr h|cap ctr h st|maxf pfc fl total st|cap pfc fl total st|thr b i IH];
+    cbn [pol_pop]; intros s' r ex H.
+  - destruct l; inversion H; subst; cbn [pol_len]; rewrite ?zlen_cons; change (zlen (@nil item)) with 0; lia.
+  - destruct l; inversion H; subst; cbn [pol_len]; rewrite ?zlen_cons; change (zlen (@nil item)) with 0; lia.
+  - destruct h as [|[[k o] it] h]; inversion H; subst; cbn [pol_len]; rewrite ?zlen_cons; change (zlen (@nil item)) with 0; lia.
+  - destruct (dl_pop now h) as [[h' r'] e'] eqn:E. inversion H; subst. cbn [pol_len]. apply dl_pop_len in E. exact E.
+  - destruct (fair_pop fl 0) as [[fl' r'] rm] eqn:E.
+    destruct r'; inversion H; subst; cbn [pol_len]; change (zlen (@nil item)) with 0; lia.
+  - destruct fl as [|w0 fl0]; [inversion H; subst; cbn [pol_len]; change (zlen (@nil item)) with 0; lia|].
+    destruct (wfq_pop (2 * length (w0 :: fl0)) (w0 :: fl0) 0) as [[fl' r'] rm] eqn:E.
+    destruct r'; inversion H; subst; cbn [pol_len]; change (zlen (@nil item)) with 0; lia.
+  - destruct (pol_pop now i) as [[i' r'] e'] eqn:E. inversion H; subst. cbn [pol_len]. eauto.
+Qed.
+
+Lemma len_nonneg : forall s, pol_wf s -> 0 <= pol_len s.
+Proof.
+  induction s; cbn [pol_len pol_wf]; intros Hw; try apply zlen_nonneg; auto.
+  - subst. apply zlen_nonneg.
+  - destruct Hw as [-> _]. apply zlen_nonneg.
+Qed.
